@@ -21,7 +21,7 @@ so every comparison uses a norm-wise relative tolerance of 1e-9 (1e-6 where an i
 
 Findings kept visible:  C04-soe-overwrites-input  SystemOfEquations / StaticCondensation.response() replace the state of their input
 matrix signal by the free-free block (they hand their own input signal to the internal LinSolve and assign its state).
-C04-einsum-partial-sum-raises  EinSum('ij->j') (a sum over one axis of a single operand): sensitivity() raises (the adjoint expression 'j->ij' is not an einsum).
+C04-einsum-partial-sum-raises  EinSum('ij->j'), EinSum('i,j->') (an index summed out that occurs in one operand only): sensitivity() raises (the adjoint expression 'j->ij' is not an einsum).
 C04-concat-scalar-raises  ConcatSignal with a python-scalar input state: sensitivity() raises TypeError (float() of a length-1 array, numpy >= 2).
 """
 import re
@@ -84,7 +84,7 @@ def close(got, want, scale, tol):
     return bool(np.isfinite(d) and d <= tol * scale)
 
 
-def seed_like(rng, y, matseed):
+def seed_like(rng, y, matseed, scalar='array'):
     """an output sensitivity of the kind of the output state y (real for real, complex for complex; carriers or dense for matrices)"""
     if y is None:
         return None
@@ -106,7 +106,7 @@ def seed_like(rng, y, matseed):
         return np.asarray(w) if y.ndim else np.array(w)
     w = float(rng.standard_normal())
     w = w + 1j * float(rng.standard_normal()) if cplx else w
-    return np.array(w) if rng.integers(0, 2) else w     # python scalar or 0-d array (both are what finite_difference uses)
+    return np.array(w) if scalar == 'array' else w     # 0-d array or python scalar (finite_difference uses both)
 
 
 def lin(a, W1, b, W2):
@@ -227,7 +227,7 @@ def protocol(build, seed, tol=1e-9, reps=3, stateless=True, matseed='dyad', hist
         nout = len(outs)
         stage = 'sensitivity()'
         W1 = [seed_like(rng, y, matseed) for y in Y]
-        W2 = [seed_like(rng, y, matseed) for y in Y]
+        W2 = [seed_like(rng, y, matseed, 'python') for y in Y]
         g1 = run(W1)[0]
         g2 = run(W2)[0]
         n1, n2 = [nrm(g) for g in g1], [nrm(g) for g in g2]
@@ -422,20 +422,20 @@ class Twice(pym.Module):       # one vector feeds two outputs
     cs.append((('user', 'two outputs'), B("return Twice(pym.Signal('x', rng.standard_normal(5)), [pym.Signal('y'), pym.Signal('z')])", user), {}, None))
     cs.append((('user', 'same signal twice'), B("sx = pym.Signal('x', rng.standard_normal(4))\nreturn pym.EinSum([sx, sx], pym.Signal('y'), expression='i,i->')"), {}, None))
     cs.append((('user', 'index-array slice'), B("sx = pym.Signal('x', 0.5 + rng.random(7))\nsy = pym.Signal('y', np.zeros(5))\nreturn pym.Scaling(sx[np.array([5, 0, 2])], sy[::-2], scaling=3.0, maxval=2.0)"), {}, None))
-    cs.append((('user', 'matrix slices'), B("sx = pym.Signal('x', rng.standard_normal((4, 3)))\nreturn pym.EinSum([sx[1:3, :], sx[:, 0]], pym.Signal('y'), expression='ij,k->')"), {}, None))
+    cs.append((('user', 'matrix slices'), B("sx = pym.Signal('x', rng.standard_normal((4, 3)))\nreturn pym.EinSum([sx[1:3, :], sx[0, :]], pym.Signal('y'), expression='ij,j->i')"), {}, None))
     cs.append((('user', 'keep_alloc input'), B("return pym.EinSum([pym.Signal('a', rng.standard_normal(3), sensitivity=np.zeros(3)), pym.Signal('b', rng.standard_normal(3))], pym.Signal('y'), expression='i,i->')"), {}, None))
     cs.append((('user', 'overlapping slices'), B("sx = pym.Signal('x', rng.standard_normal(6))\nreturn pym.EinSum([sx[0:4], sx[2:6]], pym.Signal('y'), expression='i,i->i')"), {}, None))
     runall(r, tier, seed, 'elementwise', cs)
 
 
 # --------------------------------------------------------------------------------------------------------------- generic
-@bound('EinSum for 14 expressions (sums, trace, inner/outer products, matrix-vector, quadratic form, projection, element-wise, transposed) with real, complex and mixed operands; '
+@bound('EinSum for 15 expressions (sums, trace, inner/outer products, matrix-vector, quadratic form, projection, element-wise, transposed) with real, complex and mixed operands; '
        'ConcatSignal of vectors of unequal length, length-1 vectors, python scalars and slices; same protocol')
 def generic(r, tier, seed):
     cs = []
     R = lambda s: f"rng.standard_normal({s})"
     C = lambda s: f"(rng.standard_normal({s}) + 1j * rng.standard_normal({s}))"
-    exprs = [('i->', ['4']), ('ij->', ['(2, 3)']), ('ii->', ['(3, 3)']), ('ij->j', ['(2, 3)']), ('ij->ji', ['(2, 3)']), ('i,i->', ['4', '4']), ('i,i->i', ['4', '4']), ('i,j->ij', ['2', '3']),
+    exprs = [('i->', ['4']), ('ij->', ['(2, 3)']), ('ii->', ['(3, 3)']), ('ij->j', ['(2, 3)']), ('i,j->', ['2', '3']), ('ij->ji', ['(2, 3)']), ('i,i->', ['4', '4']), ('i,i->i', ['4', '4']), ('i,j->ij', ['2', '3']),
              ('ij,j->i', ['(2, 3)', '3']), ('i,ij,j->', ['2', '(2, 3)', '3']), ('ij,ij->ij', ['(2, 3)', '(2, 3)']), ('ji,ij->ij', ['(3, 2)', '(2, 3)']), ('ji,jk,kl->il', ['(3, 2)', '(3, 3)', '(3, 2)']),
              ('ij,jk->ik', ['(2, 3)', '(3, 1)'])]
     for ex, shs in exprs:
@@ -447,7 +447,7 @@ def generic(r, tier, seed):
     cs.append((('Concat', 'scalars'), B("return pym.ConcatSignal([pym.Signal('a', float(rng.standard_normal())), pym.Signal('b', rng.standard_normal(2)), pym.Signal('c', 2.5)], pym.Signal('y'))"), {}, None))
     cs.append((('Concat', 'slices'), B("sx = pym.Signal('x', rng.standard_normal(6))\nreturn pym.ConcatSignal([sx[4:6], pym.Signal('b', rng.standard_normal(2)), sx[0:3]], pym.Signal('y'))"), {}, None))
     cs.append((('Concat', 'single'), B("return pym.ConcatSignal([pym.Signal('a', rng.standard_normal(3))], pym.Signal('y'))"), {}, None))
-    cs = [(k, s_, o, {r"raises \| ValueError during sensitivity\(\): Output character . did not appear in the input": F_EINSUM} if k[:2] == ('EinSum', 'ij->j') else
+    cs = [(k, s_, o, {r"raises \| ValueError during sensitivity\(\): Output character . did not appear in the input": F_EINSUM} if k[:2] in (('EinSum', 'ij->j'), ('EinSum', 'i,j->')) else
            ({r"raises \| TypeError during sensitivity\(\): only 0-dimensional arrays can be converted to Python scalars": F_CONCAT} if k == ('Concat', 'scalars') else kn)) for k, s_, o, kn in cs]
     runall(r, tier, seed, 'generic', cs)
 
